@@ -417,7 +417,7 @@ def run_history(history):
 
 OWN_TEXTS = {'g1': ['a b b', 'a'], 'g5': ['a b', 'x'], 'g6': ['x 1', '1'], 'g10': ['hunter2', 'abc'], 'g11': ['abc', 'zz9'],
              'g8': ['i 1 b true f 1.0', 'b true i 1', 'f 1.0 b true i 1', 'i 0 b false f 0.0', 'b false i 0'],
-             'g4': ['1+2+3', '1+'], 'g7': ['let q r', 'let let'], 'g3': ['foo if', 'Foo BAR'], 'g2': ['x, y', 'x', 'x,'], 'g9': ['foo bar', 'x']}
+             'g4': ['1+2+3', '1+'], 'g7': ['let q r', 'let let', 'let LET q', 'LET q'], 'g3': ['foo if', 'Foo BAR', 'foo IF', 'If'], 'g2': ['x, y', 'x', 'x,'], 'g9': ['foo bar', 'x']}
 
 
 def pick_text(rnd, g):
@@ -452,7 +452,7 @@ def gen_history(rnd):
             var = rnd.choice(list(models))
             g = models[var]
             start = rnd.choice(STARTS.get(g, [None]) + [None, None])
-            kw = rnd.choice([{}, {}, {'ignorecase': True}, {'parseinfo': True}, {'whitespace': ''}, {'nameguard': False}, {'asmodel': True}, {'trace': False, 'colorize': False}])
+            kw = rnd.choice([{}, {}, {'ignorecase': True}, {'ignorecase': False}, {'parseinfo': True}, {'whitespace': ''}, {'nameguard': False}, {'asmodel': True}, {'trace': False, 'colorize': False}])
             op = ('mparse', var, pick_text(rnd, g), start, kw)
         elif c < 0.6 and models:
             var = rnd.choice(list(models))
@@ -477,7 +477,7 @@ def gen_history(rnd):
         elif c < 0.92 and parsers:
             var = rnd.choice(list(parsers))
             g = parsers[var]
-            op = ('gparse', var, pick_text(rnd, g), rnd.choice(STARTS.get(g, [None]) + [None, None]), rnd.choice([{}, {}, {'ignorecase': True}, {'parseinfo': True}, {'whitespace': ''}, {'asmodel': True}]),
+            op = ('gparse', var, pick_text(rnd, g), rnd.choice(STARTS.get(g, [None]) + [None, None]), rnd.choice([{}, {}, {'ignorecase': True}, {'ignorecase': False}, {'parseinfo': True}, {'whitespace': ''}, {'asmodel': True}]),
                   rnd.choice(['none', 'none', 'A', 'B', 'F1', 'F2', 'D1']))
         elif c < 0.93:
             g = rnd.choice(list(GRAMS))
